@@ -18,7 +18,20 @@ use serde::{Deserialize, Serialize};
 
 use crate::run::HARNESS_PREFIX;
 
-pub const WATCHDOG: Duration = Duration::from_secs(90);
+pub const WATCHDOG: Duration = Duration::from_secs(180);
+
+/// Signature of known finding K1 in its depth form (see DESIGN §5): the search deepened until root ply + depth
+/// reached the 5000-entry repetition history and the search thread died.
+pub const K1_DEPTH_FORM: &str = "fullmove>2500 depth form: search deepened to the end of the 5000-entry repetition history without polling stop (search thread dies)";
+
+/// did the engine die because of K1's depth form? (`root_ply` = 2*(fullmove-1)+side of the searched root)
+pub fn is_k1_depth_form(root_ply: u64, last_depth: Option<u64>) -> bool {
+    last_depth.map_or(false, |d| root_ply + d >= 4_900)
+}
+
+pub fn max_depth_in_lines(lines: &[String]) -> Option<u64> {
+    lines.iter().filter_map(|l| { let t: Vec<&str> = l.split(' ').collect(); t.iter().position(|x| *x == "depth").and_then(|i| t.get(i + 1)).and_then(|d| d.parse::<u64>().ok()) }).max()
+}
 
 /// `go` parameters in a serialisable form (what a GUI would write on the line)
 #[derive(Debug, Clone, Default, Serialize, Deserialize, PartialEq, Eq, Hash)]
@@ -116,8 +129,8 @@ impl SearchOutput {
 
 pub enum Wait {
     Done(SearchOutput),
-    /// the search thread terminated without answering (crash instead of answer)
-    ThreadDied(String),
+    /// the search thread terminated without answering (crash instead of answer); second field = deepest depth reported before
+    ThreadDied(String, Option<u64>),
     /// nothing for WATCHDOG although the thread is alive: inconclusive, never a violation
     Timeout,
 }
@@ -189,13 +202,14 @@ impl Session {
                                 return Wait::Done(SearchOutput { infos, best: best_move, ponder: ponder_move, others });
                             }
                         }
-                        return Wait::ThreadDied("the search thread terminated without sending bestmove".into());
+                        let deepest = infos.iter().filter_map(|i| i.depth).max().map(u64::from);
+                        return Wait::ThreadDied("the search thread terminated without sending bestmove".into(), deepest);
                     }
                     if t0.elapsed() > WATCHDOG {
                         return Wait::Timeout;
                     }
                 }
-                Err(RecvTimeoutError::Disconnected) => return Wait::ThreadDied("output channel closed".into()),
+                Err(RecvTimeoutError::Disconnected) => return Wait::ThreadDied("output channel closed".into(), infos.iter().filter_map(|i| i.depth).max().map(u64::from)),
             }
         }
     }
@@ -331,7 +345,8 @@ impl TextSession {
                 }
             }
             if self.thread_finished() {
-                return Err(Wait::ThreadDied("search thread terminated".into()));
+                let l = self.lines.lock().unwrap();
+                return Err(Wait::ThreadDied("search thread terminated".into(), max_depth_in_lines(&l[self.cursor..])));
             }
             if t0.elapsed() > WATCHDOG {
                 return Err(Wait::Timeout);
@@ -429,13 +444,13 @@ impl BinSession {
                 }
                 Err(RecvTimeoutError::Timeout) => {
                     if self.exited() {
-                        return Err(Wait::ThreadDied(format!("engine process exited; lines so far: {out:?}")));
+                        return Err(Wait::ThreadDied(format!("engine process exited; last lines: {:?}", out.iter().rev().take(3).collect::<Vec<_>>()), max_depth_in_lines(&out)));
                     }
                     if t0.elapsed() > WATCHDOG {
                         return Err(Wait::Timeout);
                     }
                 }
-                Err(RecvTimeoutError::Disconnected) => return Err(Wait::ThreadDied(format!("engine process closed stdout; lines so far: {out:?}"))),
+                Err(RecvTimeoutError::Disconnected) => return Err(Wait::ThreadDied(format!("engine process closed stdout; last lines: {:?}", out.iter().rev().take(3).collect::<Vec<_>>()), max_depth_in_lines(&out))),
             }
         }
     }
